@@ -16,12 +16,28 @@ NOT_DECIDED = "scheduler fairness beyond 'the guard is released on every exit' (
 MUTEXGUARD = "std::sync::MutexGuard"
 
 
+def mentions_guard(ty, depth=0):
+    if not ty or depth > 6:
+        return False
+    if ty.get("k") == "adt":
+        if ty.get("path") == MUTEXGUARD:
+            return True
+        return any(mentions_guard(a.get("ty"), depth + 1) for a in ty.get("args", []) if isinstance(a, dict))
+    if ty.get("k") in ("ref", "ptr"):
+        return mentions_guard(ty.get("inner"), depth + 1)
+    if ty.get("k") == "tuple":
+        return any(mentions_guard(t, depth + 1) for t in ty.get("elems", []))
+    return False
+
+
 def lock_holders(tm):
+    """Crate structs with a field whose type is, or contains (Option<..>, tuple, ..), a MutexGuard."""
     out = []
-    for p, a in tm.facts.adts.items():
+    facts = tm.facts if hasattr(tm, "facts") else tm
+    for p, a in facts.adts.items():
         for v in a["variants"]:
             for i, f in enumerate(v["fields"]):
-                if f["ty"]["k"] == "adt" and f["ty"]["path"] == MUTEXGUARD:
+                if mentions_guard(f["ty"]):
                     out.append((p, f["name"], i, a))
     return out
 
@@ -80,6 +96,16 @@ def run(ck, models, tier):
                     for val in vals:
                         n += 1
                         gv = val.fields[fidx]
+                        fty = a["variants"][0]["fields"][fidx]["ty"]
+                        direct = fty["k"] == "adt" and fty["path"] == MUTEXGUARD
+                        if not direct:
+                            held = isinstance(gv, Adt) and gv.vname == "Some"
+                            ck.ob("R4.1", "%s/guard-held-unconditionally" % an, tm.target, held,
+                                  "%s.%s has type %s: the struct exists whether or not it owns the guard; on this path the field is %s — "
+                                  "a holder without the guard excludes nobody" % (an, fname, fty["s"], "Some(guard)" if held else "not provably Some(guard)"),
+                                  "%s:%d" % (st["span"]["file"], st["span"]["line"]))
+                            if held:
+                                gv = gv.fields[0]
                         ge = gv.e if isinstance(gv, (Opaque, Int)) else None
                         lv, strs, callees = deps(v, ge) if ge is not None else (set(), set(), set())
                         locks = [c for c in callees if is_std_lock(c)]
@@ -222,10 +248,7 @@ def run(ck, models, tier):
 
     def stolen(f):
         out = []
-        for p_, a in f.adts.items():
-            for v in a["variants"]:
-                for i, fl in enumerate(v["fields"]):
-                    if fl["ty"]["k"] == "adt" and fl["ty"]["path"] == MUTEXGUARD:
-                        out += [b for b in scans.field_mentions(f, p_, i) ]
+        for p_, fname_, i, a in lock_holders(f):
+            out += scans.field_mentions(f, p_, i)
         return out
     scans.control(ck, ck.ws, "R4.6", "guard-field-mentioned-outside-construction", stolen)
